@@ -224,6 +224,9 @@ class Client(base_client.BaseClient):
         self._trigger_event('connect', run_async=False)
 
         for pkt in p.packets[1:]:
+            if self.state != 'connected':
+                # disconnected by the connect handler or an earlier packet
+                break
             self._receive_packet(pkt)
 
         if self.state == 'connected' and 'websocket' in self.upgrades and \
@@ -510,6 +513,10 @@ class Client(base_client.BaseClient):
                 self.queue.put(None)
                 break
             for pkt in p.packets:
+                if self.state != 'connected':
+                    # disconnected while the request was in flight, or by
+                    # an earlier packet of this payload
+                    break
                 self._receive_packet(pkt)
 
         if self.write_loop_task:  # pragma: no branch
